@@ -105,3 +105,40 @@ Definition beh_of (l : list (string * hresult)) (meth : string) : hresult :=
 Definition holds_disp (p : plugin) (c : carrier) (m : message) (beh : string -> hresult)
            (obs : list invocation * reply) : bool :=
   delivery_eqb obs (expected_msg p c m beh).
+
+(* ====================================================================== *)
+(* C16 — the life cycle                                                    *)
+(* ====================================================================== *)
+
+Definition reachable (sw : switches) (s : state) : Prop := exists l, s = run sw init l.
+
+Definition b2n (b : bool) : nat := if b then 1 else 0.
+
+(* where the one close notification of the ttrpc client of generation g currently is: already
+   delivered to the plugin (fired), under way (pending), not yet emitted because the client is
+   still open, or being handled right now (closer) *)
+Definition tokens (s : state) (g : nat) : nat :=
+  count_occ_nat g (fired s) + count_occ_nat g (pending s) + b2n (cli_open s && Nat.eqb g (gen s)) +
+  match closer s with Some g' => b2n (Nat.eqb g' g) | None => 0 end.
+
+(* invariant of the life-cycle LTS (for any setting of the switches; the clauses about the
+   connection are conditional on the switch that breaks them) *)
+Record wf (sw : switches) (s : state) : Prop := {
+  (* connClosed is in progress only while close() waits for the server loop *)
+  wf_closer : match ph s with Closing => True | _ => closer s = None end;
+  (* an open client exists only from its creation in Start until the session ends *)
+  wf_cli : match ph s with Registering | AwaitConfigure | Configured => True | _ => cli_open s = false end;
+  (* every client ever created has exactly one close notification, somewhere *)
+  wf_tokens : forall g, tokens s g = b2n (Nat.leb 1 g && Nat.leb g (gen s));
+  wf_conn : match ph s with
+            | AwaitConfigure => wait_cfg_unguarded sw = false -> conn_live (sconn s) = true
+            | Idle => dead_conn_reused sw = false -> sconn s = CNone
+            | MuxUp | Registering => dead_conn_reused sw = false -> conn_live (sconn s) = true
+            | _ => True
+            end;
+  wf_started : match ph s with Configured => started s = true | Idle => started s = false | _ => True end;
+  wf_waiters : match ph s with Configured | Closing => True | _ => waiters s = [] end
+}.
+
+(* the events a healthy runtime produces for one Start *)
+Definition healthy_start : list action := [AStart; EDialOk; ISetupOk; ERegOk; ECfgOk].
